@@ -1,6 +1,7 @@
 package parser
 
 import (
+	"errors"
 	"fmt"
 	"strconv"
 
@@ -282,6 +283,9 @@ func (p *Parser) ParseIdentifier() ast.Expression {
 func (p *Parser) ParseIntegerLiteral() ast.Expression {
 	lit := &ast.IntegerLiteral{Token: p.CurrentToken}
 	_, err := strconv.ParseInt(p.CurrentToken.Literal, 0, 64)
+	if errors.Is(err, strconv.ErrRange) {
+		return lit // well-formed but beyond int64: still a valid JavaScript number
+	}
 	if err != nil {
 		p.AddError(fmt.Sprintf("could not parse %q as integer", p.CurrentToken.Literal))
 		return nil
@@ -292,6 +296,9 @@ func (p *Parser) ParseIntegerLiteral() ast.Expression {
 func (p *Parser) ParseFloatLiteral() ast.Expression {
 	lit := &ast.FloatLiteral{Token: p.CurrentToken}
 	_, err := strconv.ParseFloat(p.CurrentToken.Literal, 64)
+	if errors.Is(err, strconv.ErrRange) {
+		return lit // overflows to Infinity or underflows to 0 in JavaScript, not an error
+	}
 	if err != nil {
 		p.AddError(fmt.Sprintf("could not parse %q as float", p.CurrentToken.Literal))
 		return nil
